@@ -159,3 +159,25 @@ PROPS["C13"] = dict(
                 "tens of thousands of mutated encodings; oracles are value equality, CID equality, typed/generic agreement and absence of panics."),
     level_note="Trusted: go-ipld-prime's codecs as the reference for what 'encodes' means; the harness's equality (nil ~ empty).",
 )
+
+PROPS["C10"] = dict(
+    race=False,
+    shards={"quick": 8, "thorough": 16},
+    level="exploration",
+    design_ref="DESIGN.md §4 C10",
+    technique="runtime monitor: round-trip oracle (CBOR/JSON, whole and piecewise readers), wire capture of the HTTP sender, panic/allocation guards on mutated encodings",
+    rule=("roundtrip: seeded messages (CID v0/v1 of several codecs/hashes; 0..40 addresses that are valid multiaddrs incl. ones already carrying "
+          "/p2p or /p2p-circuit, unknown-protocol-code byte strings, arbitrary bytes, empty; extra data 0..64 KiB; with/without OrigPeer) "
+          "encoded to CBOR and JSON and decoded from whole, half-, one-byte- and data+EOF readers and from a truncation; array header 0x83/0x84; "
+          "GetAddrs skips unknown protocols. http-sender: Send/SendJson to a local server, body decoded and compared with the message with "
+          "/p2p/<publisher> encapsulated on every decodable address (unknown-protocol ones dropped), sender-level extra data; hostile: seeded "
+          "mutants incl. CBOR length-header tampering up to 2^63: error or a message whose re-encoding decodes equal; TotalAlloc <= 4*len+3MiB; "
+          "no panic. distinct_nontrivial = distinct (address count, OrigPeer, big extra, CID version, unknown-proto present) tuples, sender "
+          "configurations and (mutation kind, decoded shape) among ACCEPTED hostile inputs."),
+    floors={"quick": {"hostile_accepted": 300, "hostile_rejected": 10000, "msgs_with_unknown_protocol_addr": 500, "sent_json": 100, "sent_cbor": 100}},
+    max_counters=["max_alloc_per_case"],
+    level_text=("Exploration: the real encoder, decoder and HTTP sender are run on seeded messages and on tens of thousands of mutated encodings; "
+                "equality, wire content, panic-freedom and an allocation bound derived from the decoder's field caps are the oracles."),
+    level_note="Trusted: go-multiaddr for the reference /p2p encapsulation; the allocation bound 4*len+3MiB (one 2 MiB field cap + 8192-entry address table + slack).",
+    assumptions=["the pubsub sender is exercised in C09's pubsub part, not here"],
+)
